@@ -22,6 +22,10 @@ CHECKS = {
          "Generated-schedule search; the invariant is evaluated on the full event log of each run at every instant the repository's RefCounter schedules its callback: nothing derived from the element is pending, nothing derived from it starts later, nothing derived from it raised. Exploration only.",
          "Trusted: provenance tagging of elements (harness/elements.py), virtual loop; accumulate state is treated as a digest (provenance cut); the flatten design limitation is a recorded known finding.",
          "DESIGN.md section 4 C04"),
+ "C05": ("Hypothesis-generated pipelines + schedules with instrumented RefCounters; at every quiescent point count == legitimate holders computed by the reference semantics from observed arrivals; history invariants on the retain/release log",
+         "Generated-input/schedule search; accounting invariant compared against an independent holder model at every truly quiescent sample point and after the finish phase; exploration only.",
+         "Trusted: harness/model.py holders(), FIFO accounting for asynchronous nodes, the definition of 'truly quiescent' in props/c05.py; latest's hold-after-delivery is a recorded known finding.",
+         "DESIGN.md section 4 C05"),
 }
 NOT_YET = "check not built yet in this session (the property is decidable with this technique; see DESIGN.md section 4)"
 
